@@ -31,28 +31,43 @@ Qed.
 
 Lemma forwarded_inv o q canon ne no udp ttl e :
   request_to_dns_msg o q = Forwarded canon ne no udp ttl e ->
-  exists buf p, code_buffer q = Some buf /\ unpack o buf = Some p /\ canon = p_canon p
-                /\ ne = p_nextra p + 1 /\ no = p_nopt p + 1 /\ client_subnet (client_ip q) = Some e.
+  exists buf p cip, code_buffer q = Some buf /\ unpack o buf = Some p /\ canon = p_canon p
+                /\ ne = p_nextra p + 1 /\ no = p_nopt p + 1
+                /\ client_ip q = Some cip /\ client_subnet cip = Some e.
 Proof.
   unfold request_to_dns_msg. destruct (code_buffer q) as [buf|]; [|discriminate].
   destruct (unpack o buf) as [p|] eqn:Ep; [|discriminate].
-  destruct (client_subnet (client_ip q)) as [e'|] eqn:Ee; [|discriminate].
-  intros H; injection H as <- <- <- _ _ <-. exists buf, p. repeat split; try reflexivity; assumption.
+  destruct (client_ip q) as [cip|]; [|discriminate].
+  destruct (client_subnet cip) as [e'|] eqn:Ee; [|discriminate].
+  intros H; injection H as <- <- <- _ _ <-. exists buf, p, cip. repeat split; try reflexivity; assumption.
+Qed.
+(* nothing is appended without a remote address *)
+Lemma plain_inv o q canon ne no :
+  request_to_dns_msg o q = ForwardedPlain canon ne no ->
+  d_remote q = None /\ exists buf p, code_buffer q = Some buf /\ unpack o buf = Some p /\ canon = p_canon p
+                /\ ne = p_nextra p /\ no = p_nopt p.
+Proof.
+  unfold request_to_dns_msg. destruct (code_buffer q) as [buf|]; [|discriminate].
+  destruct (unpack o buf) as [p|] eqn:Ep; [|discriminate].
+  unfold client_ip. destruct (d_remote q) as [r|].
+  - destruct (client_subnet _); discriminate.
+  - intros H; injection H as <- <- <-. split; [reflexivity|]. exists buf, p. repeat split; try reflexivity; assumption.
 Qed.
 
 (* family / prefix length / address of the appended option *)
 Lemma family_prefix o q canon ne no udp ttl e :
   request_to_dns_msg o q = Forwarded canon ne no udp ttl e ->
-  e_scope e = 0 /\
-  match to4 (client_ip q) with
+  exists cip, client_ip q = Some cip /\ e_scope e = 0 /\
+  match to4 cip with
   | Some a => e_family e = 1 /\ e_mask e = 32 /\ e_addr e = a /\ length a = 4%nat
-  | None => e_family e = 2 /\ e_mask e = 128 /\ e_addr e = client_ip q /\ length (client_ip q) = 16%nat
+  | None => e_family e = 2 /\ e_mask e = 128 /\ e_addr e = cip /\ length cip = 16%nat
   end.
 Proof.
-  intros H. apply forwarded_inv in H. destruct H as [buf [p [_ [_ [_ [_ [_ He]]]]]]].
-  unfold client_subnet in He. destruct (to4 (client_ip q)) as [a|] eqn:E.
+  intros H. apply forwarded_inv in H. destruct H as [buf [p [cip [_ [_ [_ [_ [_ [Hc He]]]]]]]]].
+  exists cip. split; [exact Hc|].
+  unfold client_subnet in He. destruct (to4 cip) as [a|] eqn:E.
   - injection He as <-. cbn. repeat split. eapply to4_length. exact E.
-  - destruct (Nat.eqb (length (client_ip q)) 16) eqn:E16; [|discriminate]. injection He as <-. cbn.
+  - destruct (Nat.eqb (length cip) 16) eqn:E16; [|discriminate]. injection He as <-. cbn.
     repeat split. apply Nat.eqb_eq. exact E16.
 Qed.
 
@@ -61,6 +76,14 @@ Lemma malformed_rejected o q :
   request_to_dns_msg o q = Rejected.
 Proof.
   unfold request_to_dns_msg. intros [-> | [buf [-> ->]]]; reflexivity.
+Qed.
+(* a body reader failure before the limit rejects the request *)
+Lemma read_error_rejected o q k :
+  d_method q = s_POST -> d_fail q = Some k -> k < d_limit q -> request_to_dns_msg o q = Rejected.
+Proof.
+  intros Hm Hf Hk. apply malformed_rejected. left. unfold code_buffer, post_buffer. rewrite Hm, Hf.
+  change (bytes_eqb s_POST s_GET) with false. cbn iota. rewrite bytes_eqb_refl.
+  assert (E : (k <? d_limit q) = true) by (apply Z.ltb_lt; exact Hk). rewrite E. reflexivity.
 Qed.
 
 Lemma firstn_all_Z (l : bytes) n : blen l <= n -> firstn (Z.to_nat n) l = l.
@@ -73,41 +96,73 @@ Lemma oversize_rejected_partial o q :
 Proof.
   intros Hm Hl Hk. unfold kf_truncated in Hk. rewrite Hm, bytes_eqb_refl in Hk.
   assert (Hlt : (d_limit q <? blen (d_body q)) = true) by (apply Z.ltb_lt; exact Hl).
-  rewrite Hlt in Hk. cbn [andb] in Hk.
-  unfold request_to_dns_msg, code_buffer. rewrite Hm. cbn [bytes_eqb]. 
+  rewrite Hlt in Hk. cbn [andb orb] in Hk.
+  unfold request_to_dns_msg, code_buffer, post_buffer. rewrite Hm.
   change (bytes_eqb s_POST s_GET) with false. cbn iota. rewrite bytes_eqb_refl.
-  destruct (unpack o (firstn (Z.to_nat (d_limit q)) (d_body q))); [discriminate|reflexivity].
+  destruct (d_fail q) as [k|]; [destruct (k <? d_limit q); [reflexivity|]|];
+    destruct (unpack o (firstn (Z.to_nat (d_limit q)) (d_body q))); try discriminate; reflexivity.
 Qed.
 
 (* the model meets the specification outside the two finding classes *)
 Lemma model_meets_spec o q :
-  valid_ip (client_ip q) = true -> kf_truncated o q = false -> kf_second_opt o q = false ->
+  match client_ip q with Some cip => valid_ip cip | None => true end = true ->
+  kf_truncated o q = false -> kf_second_opt o q = false ->
   doh_spec o q (request_to_dns_msg o q) = true.
 Proof.
   intros Hip Hk1 Hk2.
-  assert (Hsub : exists e, client_subnet (client_ip q) = Some e).
-  { destruct (client_subnet (client_ip q)) as [e|] eqn:E; [exists e; reflexivity|].
+  assert (Hsub : match client_ip q with
+                 | Some cip => exists e, client_subnet cip = Some e /\ ecs_matches cip e = true
+                 | None => True end).
+  { destruct (client_ip q) as [cip|]; [|exact I].
+    destruct (client_subnet cip) as [e|] eqn:E; [exists e; split; [reflexivity|apply client_subnet_matches; exact E]|].
     exfalso. exact (client_subnet_valid _ Hip E). }
-  destruct Hsub as [e He]. pose proof (client_subnet_matches _ _ He) as Hm.
-  unfold doh_spec, request_to_dns_msg, kf_truncated, kf_second_opt, client_message, code_buffer in *.
-  destruct (bytes_eqb (d_method q) s_GET).
-  - (* GET: same buffer *)
-    destruct (match d_values q with [v] => b64url_decode v | _ => None end) as [buf|]; [|reflexivity].
-    destruct (unpack o buf) as [p|]; [|reflexivity]. rewrite He.
-    rewrite bytes_eqb_refl, Z.eqb_refl, Hm. cbn [andb]. rewrite andb_true_r.
-    destruct (p_nopt p =? 0) eqn:E0; [|discriminate]. apply Z.eqb_eq in E0. rewrite E0. reflexivity.
-  - destruct (bytes_eqb (d_method q) s_POST); [|reflexivity]. cbn [andb] in Hk1.
-    destruct (blen (d_body q) <=? d_limit q) eqn:El.
-    + apply Z.leb_le in El. rewrite (firstn_all_Z _ _ El) in *.
-      destruct (unpack o (d_body q)) as [p|]; [|reflexivity]. rewrite He.
-      rewrite bytes_eqb_refl, Z.eqb_refl, Hm. cbn [andb]. rewrite andb_true_r.
+  (* common tail: same buffer on both sides *)
+  assert (Tail : forall buf,
+    (match client_ip q with Some _ => match unpack o buf with Some p => negb (p_nopt p =? 0) | None => false end | None => false end) = false ->
+    match unpack o buf with
+    | Some p =>
+      match client_ip q,
+            match unpack o buf with
+            | Some p0 => match client_ip q with
+                         | Some cip => match client_subnet cip with
+                                       | Some e => Forwarded (p_canon p0) (p_nextra p0 + 1) (p_nopt p0 + 1) 4096
+                                                     (if 15 <? p_rcode p0 then (p_rcode p0 / 16) mod 256 * 2 ^ 24 else 0) e
+                                       | None => PackFails end
+                         | None => ForwardedPlain (p_canon p0) (p_nextra p0) (p_nopt p0) end
+            | None => Rejected end
+      with
+      | Some cip, Forwarded canon nextra nopt _ _ e =>
+        bytes_eqb canon (p_canon p) && (nextra =? p_nextra p + 1) && (nopt =? 1) && ecs_matches cip e
+      | None, ForwardedPlain canon nextra nopt => bytes_eqb canon (p_canon p) && (nextra =? p_nextra p) && (nopt =? p_nopt p)
+      | _, _ => false
+      end
+    | None => match match unpack o buf with Some _ => PackFails | None => Rejected end with Rejected => true | _ => false end
+    end = true).
+  { intros buf Hopt. destruct (unpack o buf) as [p|]; [|reflexivity].
+    destruct (client_ip q) as [cip|].
+    - destruct Hsub as [e [He Hm]]. rewrite He. rewrite bytes_eqb_refl, Z.eqb_refl, Hm. cbn [andb]. rewrite andb_true_r.
       destruct (p_nopt p =? 0) eqn:E0; [|discriminate]. apply Z.eqb_eq in E0. rewrite E0. reflexivity.
-    + apply Z.leb_gt in El. apply Z.ltb_lt in El. rewrite El in Hk1. cbn [andb] in Hk1.
+    - rewrite bytes_eqb_refl, !Z.eqb_refl. reflexivity. }
+  unfold doh_spec, request_to_dns_msg, kf_truncated, kf_second_opt, client_message, code_buffer, post_buffer in *.
+  destruct (bytes_eqb (d_method q) s_GET).
+  - destruct (match d_values q with [v] => b64url_decode v | _ => None end) as [buf|]; [|reflexivity].
+    specialize (Tail buf). destruct (unpack o buf) as [p|]; [|reflexivity]. apply Tail. exact Hk2.
+  - destruct (bytes_eqb (d_method q) s_POST); [|reflexivity]. cbn [andb] in Hk1.
+    destruct (d_fail q) as [k|].
+    + (* reader failure: the specification wants a rejection *)
+      destruct (k <? d_limit q) eqn:Ek; [reflexivity|].
+      apply Z.ltb_ge in Ek. apply Z.leb_le in Ek. rewrite Ek, orb_true_r in Hk1. cbn [andb] in Hk1.
       destruct (unpack o (firstn (Z.to_nat (d_limit q)) (d_body q))); [discriminate|reflexivity].
+    + rewrite orb_false_r in Hk1.
+      destruct (blen (d_body q) <=? d_limit q) eqn:El.
+      * apply Z.leb_le in El. rewrite (firstn_all_Z _ _ El) in *.
+        specialize (Tail (d_body q)). destruct (unpack o (d_body q)) as [p|]; [|reflexivity]. apply Tail. exact Hk2.
+      * apply Z.leb_gt in El. apply Z.ltb_lt in El. rewrite El in Hk1. cbn [andb] in Hk1.
+        destruct (unpack o (firstn (Z.to_nat (d_limit q)) (d_body q))); [discriminate|reflexivity].
 Qed.
 
 Lemma dec_enc_res r : dec_res (enc_res r) = Some r.
-Proof. destruct r as [| |canon ne no udp ttl [f m s a]]; reflexivity. Qed.
+Proof. destruct r as [| |canon ne no|canon ne no udp ttl [f m s a]]; reflexivity. Qed.
 
 Lemma prop_C56_of_model i : wf_C56 i = true -> kf_C56 i = 0 -> prop_C56 i (run_C56 i) = true.
 Proof.
@@ -118,11 +173,11 @@ Proof.
 Qed.
 
 (* ---- witnesses (real cases produced by the harness; the oracle rows are values of miekg/dns) ---- *)
-Definition w_trunc : val := (VL [(VB [80;79;83;84]); (VL []); (VB [61;82;1;32;0;1;0;0;0;0;0;1;0;0;28;0;1;0;0;41;16;0;0;0;128;0;0;11;0;8;0;7;0;1;24;0;192;0;2]); (VZ 12); (VB [32;1;13;184;198;84;59;79;124;240;131;221;53;226;248;221]); (VL []); (VL [(VL [(VB [61;82;1;32;0;1;0;0;0;0;0;1;0;0;28;0;1;0;0;41;16;0;0;0;128;0;0;11;0;8;0;7;0;1;24;0;192;0;2]); (VL [(VB [61;82;1;32;0;1;0;0;0;0;0;1;0;0;28;0;1;0;0;41;16;0;0;0;128;0;0;11;0;8;0;7;0;1;24;0;192;0;2]); (VZ 1); (VZ 1); (VZ 0)])]); (VL [(VB [61;82;1;32;0;1;0;0;0;0;0;1]); (VL [(VB [61;82;1;32;0;0;0;0;0;0;0;0]); (VZ 0); (VZ 0); (VZ 0)])])])]).
+Definition w_trunc : val := (VL [(VB [80;79;83;84]); (VL []); (VB [61;82;1;32;0;1;0;0;0;0;0;1;0;0;28;0;1;0;0;41;16;0;0;0;128;0;0;11;0;8;0;7;0;1;24;0;192;0;2]); (VZ 12); (VL [(VB [32;1;13;184;198;84;59;79;124;240;131;221;53;226;248;221])]); (VL []); (VL [(VL [(VB [61;82;1;32;0;1;0;0;0;0;0;1;0;0;28;0;1;0;0;41;16;0;0;0;128;0;0;11;0;8;0;7;0;1;24;0;192;0;2]); (VL [(VB [61;82;1;32;0;1;0;0;0;0;0;1;0;0;28;0;1;0;0;41;16;0;0;0;128;0;0;11;0;8;0;7;0;1;24;0;192;0;2]); (VZ 1); (VZ 1); (VZ 0)])]); (VL [(VB [61;82;1;32;0;1;0;0;0;0;0;1]); (VL [(VB [61;82;1;32;0;0;0;0;0;0;0;0]); (VZ 0); (VZ 0); (VZ 0)])])]); (VZ (-1))]).
 Definition w_trunc_out : val := (VL [(VZ 1); (VZ 1); (VB [61;82;1;32;0;0;0;0;0;0;0;0]); (VL [(VB [46]); (VZ 41); (VZ 4096); (VZ 0); (VL [(VL [(VZ 8); (VZ 2); (VZ 128); (VZ 0); (VB [32;1;13;184;198;84;59;79;124;240;131;221;53;226;248;221])])])])]).
-Definition w_opt : val := (VL [(VB [80;79;83;84]); (VL []); (VB [241;10;1;0;0;1;0;0;0;0;0;1;7;101;120;97;109;112;108;101;3;111;114;103;0;0;16;0;1;0;0;41;4;208;0;0;128;0;0;0]); (VZ 40); (VB [32;1;13;184;240;2;85;118;113;47;119;128;127;213;117;115]); (VL []); (VL [(VL [(VB [241;10;1;0;0;1;0;0;0;0;0;1;7;101;120;97;109;112;108;101;3;111;114;103;0;0;16;0;1;0;0;41;4;208;0;0;128;0;0;0]); (VL [(VB [241;10;1;0;0;1;0;0;0;0;0;1;7;101;120;97;109;112;108;101;3;111;114;103;0;0;16;0;1;0;0;41;4;208;0;0;128;0;0;0]); (VZ 1); (VZ 1); (VZ 0)])])])]).
+Definition w_opt : val := (VL [(VB [80;79;83;84]); (VL []); (VB [241;10;1;0;0;1;0;0;0;0;0;1;7;101;120;97;109;112;108;101;3;111;114;103;0;0;16;0;1;0;0;41;4;208;0;0;128;0;0;0]); (VZ 40); (VL [(VB [32;1;13;184;240;2;85;118;113;47;119;128;127;213;117;115])]); (VL []); (VL [(VL [(VB [241;10;1;0;0;1;0;0;0;0;0;1;7;101;120;97;109;112;108;101;3;111;114;103;0;0;16;0;1;0;0;41;4;208;0;0;128;0;0;0]); (VL [(VB [241;10;1;0;0;1;0;0;0;0;0;1;7;101;120;97;109;112;108;101;3;111;114;103;0;0;16;0;1;0;0;41;4;208;0;0;128;0;0;0]); (VZ 1); (VZ 1); (VZ 0)])])]); (VZ (-1))]).
 Definition w_opt_out : val := (VL [(VZ 2); (VZ 2); (VB [241;10;1;0;0;1;0;0;0;0;0;1;7;101;120;97;109;112;108;101;3;111;114;103;0;0;16;0;1;0;0;41;4;208;0;0;128;0;0;0]); (VL [(VB [46]); (VZ 41); (VZ 4096); (VZ 0); (VL [(VL [(VZ 8); (VZ 2); (VZ 128); (VZ 0); (VB [32;1;13;184;240;2;85;118;113;47;119;128;127;213;117;115])])])])]).
-Definition w_v4 : val := (VL [(VB [71;69;84]); (VL [(VB [97;100;52;66;69;65;65;66;65;65;65;65;65;65;65;65;65;65;65;99;65;65;69])]); (VB []); (VZ 0); (VB [104;248;76;239]); (VL []); (VL [(VL [(VB [105;222;1;16;0;1;0;0;0;0;0;0;0;0;28;0;1]); (VL [(VB [105;222;1;16;0;1;0;0;0;0;0;0;0;0;28;0;1]); (VZ 0); (VZ 0); (VZ 0)])])])]).
+Definition w_v4 : val := (VL [(VB [71;69;84]); (VL [(VB [97;100;52;66;69;65;65;66;65;65;65;65;65;65;65;65;65;65;65;99;65;65;69])]); (VB []); (VZ 0); (VL [(VB [104;248;76;239])]); (VL []); (VL [(VL [(VB [105;222;1;16;0;1;0;0;0;0;0;0;0;0;28;0;1]); (VL [(VB [105;222;1;16;0;1;0;0;0;0;0;0;0;0;28;0;1]); (VZ 0); (VZ 0); (VZ 0)])])]); (VZ (-1))]).
 Definition w_v4_out : val := (VL [(VZ 1); (VZ 1); (VB [105;222;1;16;0;1;0;0;0;0;0;0;0;0;28;0;1]); (VL [(VB [46]); (VZ 41); (VZ 4096); (VZ 0); (VL [(VL [(VZ 8); (VZ 1); (VZ 32); (VZ 0); (VB [104;248;76;239])])])])]).
 
 (* finding 1: a 39-byte POST body with limit 12 is cut to its 12-byte header, which parses, and is forwarded *)
